@@ -7,6 +7,7 @@ from .. import build, gen, monitors
 from . import common as K
 
 ID = "C09"
+REACH_TARGETS = [('assert_valid_covariance', 'formak.python:assert_valid_covariance'), ('EKF.process_model', 'formak.python:ExtendedKalmanFilter.process_model'), ('EKF.sensor_model', 'formak.python:ExtendedKalmanFilter.sensor_model')]
 LEVEL = "exploration"
 RULE = ("histories of predictions (dt in (0, max_dt]) and sensor updates from a symmetric PSD covariance "
         "(identity, diagonal with zeros, rank-one v v^T, random SPD) on: the project's own mass/z/v/a model "
